@@ -9,6 +9,7 @@ FLAVOURS = {
     # production flavour: what users ship (no sanitizer => the library's direct over-read / in-page fast paths are live)
     'prod': dict(cxx='g++', flags=['-std=gnu++17', '-O2', '-g', '-march=haswell'], libs=['-lrapidcheck']),
     'wsm': dict(cxx='g++', flags=['-std=gnu++17', '-O2', '-g', '-march=westmere'], libs=['-lrapidcheck']),
+    'dyn': dict(cxx='g++', flags=['-std=gnu++17', '-O2', '-g', '-march=westmere', '-DSONIC_DYNAMIC_DISPATCH'], libs=['-lrapidcheck']),
     'tsan': dict(cxx='clang++', flags=['-std=gnu++17', '-O1', '-g', '-march=haswell', '-fsanitize=thread'],
                  libs=['-lrapidcheck', '-lpthread']),
     'fuzz': dict(cxx='clang++', flags=['-std=gnu++17', '-O1', '-g', '-march=haswell', ASAN_SAN.replace('address', 'fuzzer,address'),
@@ -238,6 +239,31 @@ PROPS['C09'] = dict(
          'or len%32 != 0 with the source within 64 bytes of a page end.',
     min_evaluations=dict(quick=500000, thorough=10000000),
     required_classes=['place:page-end', 'place:heap-exact', 'place:in-page', 'place:page-start', 'class:all-escapes', 'class:single-byte'],
+)
+
+c14 = B('c14_memcmp', 'c14_memcmp.cpp', 'asan')
+c14p = B('c14_memcmp', 'c14_memcmp.cpp', 'prod')
+c14w = B('c14_memcmp', 'c14_memcmp.cpp', 'wsm')
+c14d = B('c14_memcmp', 'c14_memcmp.cpp', 'dyn')
+PROPS['C14'] = dict(
+    title='Member lookup compares keys by exact bytes for every length and address',
+    units=[
+        U(c14p, 'prng', 600000, 40000000, wq=4, wt=8, label='c14-prod'),
+        U(c14, 'prng', 200000, 8000000, wq=3, wt=4, label='c14-asan'),
+        U(c14w, 'prng', 300000, 8000000, wq=2, wt=2, label='c14-westmere'),
+        U(c14d, 'prng', 300000, 8000000, wq=2, wt=2, label='c14-dynamic'),
+        U(c14, 'rc', 4000, 100000, wq=1, wt=2, label='c14-rc'),
+    ],
+    rule='cases: pairs of equal-length byte ranges; the (length 0..130) x (first mismatch position | none) grid of 8646 cells is '
+         'enumerated by case index (every cell, many times per run; cells covered reported), plus lengths 131..4000; mismatching '
+         'byte pairs cover the sign cases (00/01, 7f/80, ff/00, ...); both operands placed independently: heap block of exact '
+         'size, ending 0..40 bytes before a PROT_NONE page, at any offset inside a page; a quarter of the cases go through the '
+         'API (object built with such keys, probe key placed at a page end, FindMember by view and by pointer+length, HasMember, '
+         'with and without CreateMap, pool and freeing allocators). Builds: production haswell (in-page 32-byte fast path live), '
+         'sanitizer, static westmere, dynamic dispatch. Oracle: memcmp (equality and sign), model lookup (first match without a '
+         'map), no fault. Non-trivial: len >= 1 with a mismatch or an operand within 32 bytes of a page end.',
+    min_evaluations=dict(quick=500000, thorough=10000000),
+    required_classes=['level:kernel', 'level:api', 'api:map', 'api:linear', 'placeA:page-end', 'mismatch', 'equal'],
 )
 
 
